@@ -42,7 +42,7 @@ CHECKS = {
  "C15": dict(engine="S", technique="same engine; eval_vec/eval_iter terms decided equal to the reference; clone counter and moved-out-placeholder flag of the proxy type asserted per path",
     text="Consuming evaluation decided equal to the reference for all values; exactly-once variables are never cloned; the placeholder never reaches an operator.", ref="4/C15"),
  "C16": dict(engine="S+K", technique="Kani/CBMC operator cells of Val<i32,f64>: per operator and role, concrete operand kinds x fully symbolic payloads (multiplicative Int kernels over boundary values and [-9,9], exponents [-2,66]) vs the typed rule table transcribed from the rustdoc; quick tier: direct kernels (the private operator functions of value.rs that the table entries name, association read from the source of make() on every run, reached through verif_hooks::val) for every operator that names a function, all operand-kind groups, libm primitives and sqrt replaced by tagged stubs so that the cell proves which primitive is applied to which argument; thorough tier: table cells (operator looked up by a natively computed index, repr() asserted). Engine S: precedence semantics of the real table (metadata transplant) decided for all values",
-    text="Typing/error rules of the value operators are model-checked per cell (quick: 105 direct kernels + table cells of / < == if else + casts <i32,f32>; thorough: all 260 harnesses incl. arrays and the second/third instantiation for casts); expression-level precedence over the real table is decided by engine S.", ref="4/C16"),
+    text="Typing/error rules of the value operators are model-checked per cell (quick: 110 direct kernels incl. the six comparisons over the real PartialEq/PartialOrd + table cells of / < == if else + casts <i32,f32>; thorough: all 260 harnesses incl. arrays and the second/third instantiation for casts); expression-level precedence over the real table is decided by engine S.", ref="4/C16"),
  "C17": dict(engine="S+K", technique="Kani/CBMC on the same operator cells: every Rust-level panic (overflow assertion, unwrap on None, index out of bounds) and unwinding assertion is a proof obligation; counterexamples are replayed natively with `cargo kani playback`. Complement (path-level, no solver): the catalogue of the property's own quantifier, every operator of the real table on every (ordered pair of) ~75 boundary operands incl. arrays of length 0..5, at evaluation time and through parse-time folding, under catch_unwind in a build with overflow checks",
     text="Totality of the value operators for ALL payloads of every operand kind within the harness bounds; the same function pointers are called by parse-time folding. Quick: direct kernels of every named operator function (all operand-kind groups), table cells of / < == if else, casts <i32,f32>; thorough: all cells.", ref="4/C17",
     note=K_NOTE),
